@@ -2,7 +2,7 @@
 CHECK = {
     "pkg": ".", "files": ["root/c11_test.go"], "run": "^TestC11",
     "quick": {"scale": 1, "shards": 1, "timeout": 600},
-    "thorough": {"scale": 12, "shards": 8, "timeout": 1800},
+    "thorough": {"scale": 8, "shards": 8, "timeout": 1800},
     "rule": "rapid sequences (<= 80 ops, Check-only probes mixed in) of counters drawn relative to the model's "
             "highest accepted counter (next, small steps, window edges max-L(+-1), word-boundary jumps +-63/64/65, "
             "jumps of L-1/L/L+1/2L/3L, duplicates of accepted counters, 0, values near 2^64) for window lengths "
